@@ -1145,7 +1145,7 @@ class Gen:
             self.sid += 1
             sid = self.sid
             self.emit([Lx("/*", "cmt")], "comment", 0, -1, sid)
-            for _ in range(d.int(1, 3)):
+            for _ in range(d.int(1, 3) if d.bool(0.9) else d.int(8, 14)):     # now and then a long run: look-back loops have fixed horizons
                 self.emit([Lx("** " + words(d.int(1, 8)), "cmt")], "comment", 0, -1, sid)
             self.emit([Lx("*/", "cmt")], "comment", 0, -1, sid)
 
@@ -1367,7 +1367,7 @@ def gen_c(d, opts=None, name=None):
         g.header(base)
         g.blank()
     if d.bool(0.2) or "leading-comments" in opts.get("force", ()):
-        for _ in range(d.int(2, 3) if "leading-comments" in opts.get("force", ()) else d.int(1, 3)):
+        for _ in range(d.int(2, 3) if "leading-comments" in opts.get("force", ()) else d.int(1, 3) if d.bool(0.85) else d.int(8, 12)):
             g.comment_lines()
         g.blank()
         g.tag("section:leading-comments")
@@ -1404,7 +1404,8 @@ def gen_c(d, opts=None, name=None):
         if i:
             g.blank()
         if d.bool(0.15):
-            g.comment_lines()
+            for _ in range(1 if d.bool(0.85) else d.int(8, 10)):
+                g.comment_lines()
         g.function(i)
     if forward:
         # forward declarations (static prototypes) of functions defined below, possibly with prototypes of other functions in between
